@@ -3,7 +3,7 @@ package main
 // c01_trace.go — the observed coarse trace of a scenario, canonicalised per generation and per pipeline and
 // encoded as integers for the Coq acceptor (Model/SystemAccept.v, [decode_trace]):
 //
-//	ngen, then per generation:
+//	flags (bit 0: scenario with a small queue quota), ngen, then per generation:
 //	  end_id, nconn, conn..., ningest, (conn, seq, pipeline, keep, body)...,
 //	  npipes, per pipeline: pipeline, ncreated, (id, ntok, (conn, seq)...)..., nsessions, (nev, (kind, id)...)...,
 //	  stopped, [ndisk, (pipeline, id)..., drops]
@@ -128,7 +128,11 @@ func c01EncodeTrace(run *c01Run, output string) []int64 {
 		sort.Slice(l, func(i, j int) bool { return l[i].attempt < l[j].attempt })
 	}
 
-	z := []int64{int64(len(run.Gens))}
+	flags := int64(0)
+	if sc.Quota {
+		flags |= 1
+	}
+	z := []int64{flags, int64(len(run.Gens))}
 	drops := 0
 	for g, gen := range run.Gens {
 		created := 0
@@ -253,18 +257,26 @@ func (r *c01zReader) next() int {
 }
 
 // c01TraceCase is the Go side of a kind-2 case: where is every ingested, non-filtered record at the end?
-// acked: in a chunk for which an ACK was written; disk: in a file of the last listing; the rest is "dropped"
-// when the dropped-chunk counter can cover it (at least one counted chunk per separated gap of a stream), else lost.
+// acked: in a chunk for which an ACK was written; disk: in a file of the last listing; the rest is "dropped".
+// The trace is acceptable only if, at every stop, the chunks that have vanished so far (observed earlier, never
+// ACKed, not in the listing) plus the separated gaps of never-observed records of each stream can be covered by
+// the dropped-chunk counters read at that stop; otherwise the output is "reject" and at-least-once fails.
 func c01TraceCase(z []int64) (string, []Fail) {
 	r := &c01zReader{z: z}
 	type tokT struct{ conn, seq, pipe, keep int }
 	var toks []tokT
 	chunkToks := map[[2]int][][2]int{}
+	inChunk := map[[2]int]bool{} // stamp -> is in some observed chunk
 	acked := map[[2]int]bool{}
+	seenBy := map[[2]int]bool{} // chunks received or listed so far
 	lastDisk := map[[2]int]bool{}
 	lastStopped := false
-	drops := 0
+	uncovered := ""
+	flags := r.next()
 	ngen := r.next()
+	type gdata struct {
+		recv, ack [][2]int
+	}
 	for g := 0; g < ngen && !r.bad; g++ {
 		r.next() // end id
 		nc := r.next()
@@ -286,7 +298,9 @@ func c01TraceCase(z []int64) (string, []Fail) {
 				nt := r.next()
 				var l [][2]int
 				for k := 0; k < nt && !r.bad; k++ {
-					l = append(l, [2]int{r.next(), r.next()})
+					st := [2]int{r.next(), r.next()}
+					l = append(l, st)
+					inChunk[st] = true
 				}
 				chunkToks[[2]int{p, id}] = l
 			}
@@ -297,6 +311,8 @@ func c01TraceCase(z []int64) (string, []Fail) {
 					kind, id := r.next(), r.next()
 					if kind == 2 {
 						acked[[2]int{p, id}] = true
+					} else {
+						seenBy[[2]int{p, id}] = true
 					}
 				}
 			}
@@ -306,14 +322,63 @@ func c01TraceCase(z []int64) (string, []Fail) {
 		if lastStopped {
 			nd := r.next()
 			for i := 0; i < nd && !r.bad; i++ {
-				p, id := r.next(), r.next()
-				lastDisk[[2]int{p, id}] = true
+				key := [2]int{r.next(), r.next()}
+				lastDisk[key] = true
+				seenBy[key] = true
 			}
-			drops = r.next()
+			drops := r.next()
+			if r.bad {
+				break
+			}
+			// lower bound of the chunks lost so far
+			need := 0
+			for key := range seenBy {
+				if !acked[key] && !lastDisk[key] {
+					need++
+				}
+			}
+			gapRuns := map[int]map[int]int{}
+			inRun := map[[2]int]bool{}
+			for _, t := range toks {
+				if t.keep == 0 {
+					continue
+				}
+				key := [2]int{t.conn, t.pipe}
+				if inChunk[[2]int{t.conn, t.seq}] {
+					inRun[key] = false
+					continue
+				}
+				if !inRun[key] {
+					inRun[key] = true
+					if gapRuns[t.pipe] == nil {
+						gapRuns[t.pipe] = map[int]int{}
+					}
+					gapRuns[t.pipe][t.conn]++
+				}
+			}
+			for _, byConn := range gapRuns {
+				m := 0
+				for _, n := range byConn {
+					if n > m {
+						m = n
+					}
+				}
+				need += m
+			}
+			if need > drops && uncovered == "" {
+				uncovered = fmt.Sprintf("after stop %d at least %d chunks are gone (never ACKed, not in a queue file) but the dropped-chunk counters show %d", g+1, need, drops)
+			}
 		}
 	}
 	if r.bad || r.pos != len(z) {
-		return "reject:decode", nil
+		return "reject", nil
+	}
+	if uncovered != "" {
+		sig := "c01:lost:trace"
+		if flags&1 != 0 {
+			sig = "c01:lost:trace:quota"
+		}
+		return "reject", []Fail{{sig, "observed trace: " + uncovered}}
 	}
 	where := map[[2]int]int{} // stamp -> 1 acked, 2 disk
 	for key, l := range chunkToks {
@@ -326,53 +391,23 @@ func c01TraceCase(z []int64) (string, []Fail) {
 		}
 	}
 	na, nd, nx, npend, nf := 0, 0, 0, 0, 0
-	// gaps: maximal runs of missing kept records per (conn, pipe) stream
-	gapRuns := map[int]map[int]int{} // pipe -> conn -> number of separated runs
-	inRun := map[[2]int]bool{}
 	for _, t := range toks {
 		if t.keep == 0 {
 			nf++
 			continue
 		}
-		key := [2]int{t.conn, t.pipe}
 		switch where[[2]int{t.conn, t.seq}] {
 		case 1:
 			na++
-			inRun[key] = false
 		case 2:
 			nd++
-			inRun[key] = false
 		default:
 			if lastStopped {
 				nx++
 			} else {
 				npend++
 			}
-			if !inRun[key] {
-				inRun[key] = true
-				if gapRuns[t.pipe] == nil {
-					gapRuns[t.pipe] = map[int]int{}
-				}
-				gapRuns[t.pipe][t.conn]++
-			}
 		}
 	}
-	need := 0
-	for _, byConn := range gapRuns {
-		m := 0
-		for _, n := range byConn {
-			if n > m {
-				m = n
-			}
-		}
-		need += m
-	}
-	var fails []Fail
-	alo := 1
-	nlost := 0
-	if lastStopped && need > drops {
-		alo = 0
-		fails = append(fails, Fail{"c01:lost:trace", fmt.Sprintf("trace: %d records neither ACKed nor on disk after the last stop need >= %d dropped chunks, counters show %d", nx, need, drops)})
-	}
-	return fmt.Sprintf("accept:acked=%d,disk=%d,dropped=%d,pending=%d,lost=%d,filtered=%d,alo=%d", na, nd, nx, npend, nlost, nf, alo), fails
+	return fmt.Sprintf("accept:acked=%d,disk=%d,dropped=%d,pending=%d,lost=0,filtered=%d,alo=1", na, nd, nx, npend, nf), nil
 }
